@@ -50,7 +50,7 @@ func c06World() (*vfWorld, *vfFakes) {
 	users[vfAutoUser] = "autobot-pw"
 	w := vfNewWorld(vfOpts{CertBackends: []string{"TOTP"}, WebUIBackends: []string{"TOTP", "U2F"}, EnableTOTP: true, EnableBootstrap: true, AWS: true,
 		AdminUsers: []string{"admin"}, AutomationUsers: []string{vfAutoUser}, AutomationAdmins: []string{"autoadmin"}, CliTokenLifetime: 3600e9, Users: users,
-		DenyFPs: []string{vfDenyFP()},
+		DenyFPs: vfDenyList(),
 		OIDCClients: []OpenIDConnectClientConfig{{ClientID: "cl", ClientSecret: "s3cret", AllowedRedirectDomains: []string{"example.com"}}}})
 	f := w.vfEnableVIP()
 	w.vfEnableOAuth2()
